@@ -139,10 +139,13 @@ def float_literal(x):
     return h
 
 
-IFACE_ORDER = ["ltb", "leb", "eqb", "add", "sub", "mul", "div", "neg", "absT"]
+IFACE_ORDER = ["ltb", "leb", "eqb", "add", "sub", "mul", "div", "neg", "absT", "of_nat", "of_Z"]
 IFACE_TYPE = {"ltb": "T -> T -> bool", "leb": "T -> T -> bool", "eqb": "T -> T -> bool",
               "add": "T -> T -> T", "sub": "T -> T -> T", "mul": "T -> T -> T", "div": "T -> T -> T",
-              "neg": "T -> T", "absT": "T -> T"}
+              "neg": "T -> T", "absT": "T -> T",
+              # Python's implicit int -> float conversion in mixed arithmetic (exact below 2^53); a parameter of the
+              # binary64 instance
+              "of_nat": "nat -> T", "of_Z": "Z -> T"}
 
 
 # ----------------------------------------------------------------------------------------------
@@ -321,8 +324,10 @@ def tokens(code):
 class Ctx:
     """Where `return` / raise / the end of the block go: function level or inside a loop body."""
 
-    def __init__(self, fn, loop=None):
-        self.fn, self.loop = fn, loop
+    def __init__(self, fn, loop=None, wl=None):
+        # loop: the innermost enclosing `for` (its state record carries return / raise); wl: (continue, break)
+        # code builders when the INNERMOST enclosing loop is a `while`
+        self.fn, self.loop, self.wl = fn, loop, wl
 
     def ret_val(self, code, env):
         v = "(Some %s)" % code if self.fn.partial else code
@@ -531,6 +536,10 @@ class FnTranslator:
             a, ta = self.coerce(a, ta, tb, node)
         if is_lit(tb):
             b, tb = self.coerce(b, tb, ta, node)
+        if ta == "T" and tb in ("nat", "Z"):
+            b, tb = "(%s %s)" % (self.use("of_" + tb), b), "T"
+        elif tb == "T" and ta in ("nat", "Z"):
+            a, ta = "(%s %s)" % (self.use("of_" + ta), a), "T"
         if ta != tb:
             raise self.err("operands of different types %s and %s" % (ta, tb), node)
         return a, b, ta
@@ -802,7 +811,8 @@ class FnTranslator:
         if q not in self.done:
             raise self.err("call of %s = %s, which is not translated before this function" % (f, q), n)
         callee = self.done[q]
-        if callee.writes or callee.pick_sites or callee.sample_vars or callee.oracle_once & set(callee.used_oracles):
+        if callee.writes or callee.pick_sites or callee.sample_vars or callee.oracle_once & set(callee.used_oracles) \
+                or getattr(callee, "has_while", False) or callee.events:
             raise self.err("call of %s, which has writes / pick functions / impure oracles" % f, n)
         for nm in callee.tvars:
             if nm not in self.tnames:
@@ -1290,6 +1300,12 @@ class FnTranslator:
                 return ctx.ret_val(self.result_code(None, env, s), env)
             (c, _), pre = self.with_pre(lambda: self.expr(s.value, env, self.val_type))
             return self.wrap(pre, ctx.ret_val(self.result_code(c, env, s), env), ctx, env)
+        if isinstance(s, (ast.Continue, ast.Break)) and ctx.wl is not None:
+            if rest:
+                raise self.err("unreachable statement after continue / break", rest[0])
+            return ctx.wl[0 if isinstance(s, ast.Continue) else 1](env)
+        if isinstance(s, ast.While):
+            return self.while_(s, rest, env, ctx, k)
         if isinstance(s, ast.Continue):
             if ctx.loop is None:
                 raise self.err("continue outside a loop", s)
@@ -1317,6 +1333,8 @@ class FnTranslator:
             if len(s.targets) != 1:
                 raise self.err("chained assignment", s)
             tgt, val = s.targets[0], s.value
+            if isinstance(tgt, (ast.Tuple, ast.List)):
+                return self.tuple_assign(s, tgt, val, rest, env, ctx, k)
         else:
             tgt = s.target
             left = ast.parse(ast.unparse(tgt), mode="eval").body        # the target, read
@@ -1331,8 +1349,8 @@ class FnTranslator:
                            "spec can be assigned)" % (attr_key(tgt) or type(tgt).__name__), s)
         else:
             name = tgt.id
-        if name in self.loop_targets:
-            raise self.err("assignment to the loop variable %r" % name, s)
+        if name in self.loop_idx_names or (name in self.loop_targets and name not in env):
+            raise self.err("assignment to the loop index / lambda variable %r" % name, s)
         if env.get(name) == "obj" or name == "self":
             raise self.err("assignment to the object parameter %r" % name, s)
         want = env.get(name)
@@ -1390,6 +1408,57 @@ class FnTranslator:
         env2 = dict(env)
         env2[name] = t
         inner = "let %s := %s in\n%s" % (mangle(name), c, self.block(rest, env2, ctx, k))
+        return self.wrap(pre, inner, ctx, env)
+
+    def tuple_assign(self, s, tgt, val, rest, env, ctx, k):
+        """a, b = e1, e2 (all right-hand sides are evaluated first) and q, r = divmod(x, y) on integers (floor
+        division and modulus as Python defines them for a positive divisor; ZeroDivisionError for y = 0)"""
+        if not all(isinstance(e, ast.Name) for e in tgt.elts) or len({e.id for e in tgt.elts}) != len(tgt.elts):
+            raise self.err("tuple assignment to other than distinct local names", s)
+        names = [e.id for e in tgt.elts]
+        for nm in names:
+            if nm in self.loop_idx_names or env.get(nm) in ("obj", "fixed") or nm == "self" or nm in self.appended:
+                raise self.err("tuple assignment to %r (a loop index / object / list modified in place)" % nm, s)
+
+        def build():
+            if isinstance(val, (ast.Tuple, ast.List)) and len(val.elts) == len(names):
+                out = []
+                for nm, e in zip(names, val.elts):
+                    want = env.get(nm)
+                    c, t = self.expr(e, env, want if want in SCALARS else None)
+                    if is_lit(t):
+                        if nm not in self.lit_guess:
+                            raise _NeedLitGuess(nm)
+                        c, t = self.coerce(c, t, self.lit_guess[nm], s)
+                    if want is not None and want != t:
+                        raise self.err("local %r changes its type from %s to %s" % (nm, want, t), s)
+                    if isinstance(e, (ast.Name, ast.Attribute, ast.Subscript)) and is_list(t):
+                        raise self.err("tuple assignment of a list (an alias)", s)
+                    out.append((c, t))
+                return out
+            if isinstance(val, ast.Call) and dotted(val.func) == "divmod" and "divmod" not in env and len(val.args) == 2 \
+                    and not val.keywords and len(names) == 2 and "divmod" not in getattr(self, "shadowed_builtins", ()):
+                a, ta = self.expr(val.args[0], env)
+                b, tb = self.expr(val.args[1], env)
+                a, b, t = self.unify(a, ta, b, tb, val)
+                if t not in ("nat", "Z"):
+                    raise self.err("divmod() on %s" % (t,), val)
+                m = "Nat" if t == "nat" else "Z"
+                if t == "Z":
+                    # Python's floor division / modulus agree with Z.div / Z.modulo for every non-zero divisor
+                    pass
+                self.guard("(%s.eqb %s %s)" % (m, b, "0%nat" if t == "nat" else "0%Z"))
+                for nm in names:
+                    if env.get(nm) not in (None, t):
+                        raise self.err("local %r changes its type from %s to %s" % (nm, env[nm], t), s)
+                return [("(%s.div %s %s)" % (m, a, b), t), ("(%s.modulo %s %s)" % (m, a, b), t)]
+            raise self.err("tuple assignment from other than a tuple of the same length / divmod()", s)
+        vals, pre = self.with_pre(build)
+        env2 = dict(env)
+        for nm, (_, t) in zip(names, vals):
+            env2[nm] = t
+        inner = "let '(%s) := (%s) in\n%s" % (", ".join(mangle(nm) for nm in names), ", ".join(c for c, _ in vals),
+                                               self.block(rest, env2, ctx, k))
         return self.wrap(pre, inner, ctx, env)
 
     def fresh_list_expr(self, v):
@@ -1813,6 +1882,76 @@ class FnTranslator:
         pat, bound = names_of(target, et)
         return lst, et, pat, bound, None, None
 
+    def while_(self, s, rest, env, ctx, k):
+        """`while test: body` as a structural recursion on a fuel parameter of the function (`fuel`, its last
+        parameter): every iteration uses one unit; running out of fuel is not a value (None, like an exception), so a
+        theorem about the generated definition holds for every fuel that is enough.  The locals assigned in the
+        body are the arguments of the recursion; `continue` is the recursive call, `break` the code after the loop,
+        `return` returns (the enclosing for loop's state, if any, as usual)."""
+        if s.orelse:
+            raise self.err("while ... else", s)
+        if not self.partial:
+            raise _NeedPartial()
+        if "fuel" not in env or env["fuel"] != "nat" or not self.has_while:
+            raise self.err("while loop, but no fuel parameter (internal)", s)
+        body_assigned = assigned_names(s.body)
+        if "fuel" in body_assigned:
+            raise self.err("assignment to the name `fuel` (reserved for the fuel of while loops)", s)
+        occ = {}
+        for nd in sorted((nd for st_ in s.body for nd in ast.walk(st_) if isinstance(nd, (ast.Name, ast.Attribute, ast.Subscript))),
+                         key=lambda nd: (nd.lineno, nd.col_offset, 0 if isinstance(nd, ast.Name) else 1)):
+            if isinstance(nd, ast.Name):
+                occ.setdefault(nd.id, len(occ))
+            elif attr_key(nd) and "." in attr_key(nd):
+                occ.setdefault(attr_var(attr_key(nd)), len(occ))
+        carried = sorted([(v, env[v]) for v in env if v in body_assigned], key=lambda vt: occ[vt[0]])
+        for v, t in carried:
+            if t in ("obj", "fixed"):
+                raise self.err("assignment to the object parameter %r" % v, s)
+        self.nloop += 1
+        kk = self.nloop
+        loop_name, after_name = "%s_w%d_loop" % (self.base, kk), "%s_w%d_after" % (self.base, kk)
+        cvars = [mangle(v) for v, _ in carried]
+        # what follows the loop: a definition of the carried locals (and of the other locals it reads)
+        after = self.block(rest, dict(env), ctx, k)
+        toks = tokens(after)
+        aparams = [v for v in env if env[v] not in ("obj", "fixed") and v not in body_assigned and mangle(v) in toks]
+        self.defs.append("(* while loop %d of %s (line %d): the recursion carries %s *)\nDefinition %s %s : %s :=\n%s." % (
+            kk, self.qual, s.lineno, ", ".join(v for v, _ in carried) or "nothing", after_name,
+            " ".join("(%s : %s)" % (mangle(v), coq_type(env[v])) for v in aparams + [c for c, _ in carried]),
+            ctx.result_type(), textwrap.indent(after, "  ")))
+
+        def after_call(e):
+            for v, t in carried:
+                if e.get(v) != t:
+                    raise self.err("local %r changes its type in a while loop" % v, s)
+            return "(%s)" % " ".join([after_name] + [mangle(v) for v in aparams] + cvars)
+
+        def rec_call(e):
+            for v, t in carried:
+                if e.get(v) != t:
+                    raise self.err("local %r changes its type in a while loop" % v, s)
+            return "(%s)" % " ".join([loop_name] + ["@PARAMS@", "fuel'"] + cvars)
+        wctx = Ctx(self, ctx.loop, (rec_call, after_call))
+        saved_targets = self.loop_targets
+        self.loop_targets = self.loop_targets | {"<while>"}         # impure oracles are not allowed inside
+        self.loop_stack.append(s.body)
+        try:
+            (c, _), pre = self.with_pre(lambda: self.expr(s.test, env, "bool"))
+            body = self.block(s.body, env, wctx, rec_call)
+        finally:
+            self.loop_stack.pop()
+            self.loop_targets = saved_targets
+        step = self.wrap(pre, "if %s then\n%s\nelse\n  %s" % (c, textwrap.indent(body, "  "), after_call(env)), ctx, env)
+        toks = tokens(step)
+        lparams = [v for v in env if env[v] not in ("obj", "fixed") and v not in body_assigned and v != "fuel" and mangle(v) in toks]
+        step = step.replace("@PARAMS@", " ".join(mangle(v) for v in lparams))
+        self.defs.append("Fixpoint %s %s (fuel : nat) %s {struct fuel} : %s :=\n  match fuel with\n  | O => %s\n  | S fuel' =>\n%s\n  end." % (
+            loop_name, " ".join("(%s : %s)" % (mangle(v), coq_type(env[v])) for v in lparams),
+            " ".join("(%s : %s)" % (mangle(v), coq_type(t)) for v, t in carried), ctx.result_type(),
+            ctx.raise_(env), textwrap.indent(step, "    ")))
+        return "(%s)" % " ".join([loop_name] + [mangle(v) for v in lparams] + ["fuel"] + cvars)
+
     def for_(self, s, rest, env, ctx, k):
         if s.orelse:
             raise self.err("for ... else", s)
@@ -1895,6 +2034,8 @@ class FnTranslator:
         env_b.update(bound)
         saved_targets, saved_safe = self.loop_targets, self.safe_index
         self.loop_targets = self.loop_targets | set(bound) | ({idx} if idx else set())
+        saved_idx = self.loop_idx_names
+        self.loop_idx_names = self.loop_idx_names | ({idx} if idx else set())
         self.safe_index = self.safe_index + ([safe] if safe else [])
         bctx = Ctx(self, loop)
         self.loop_stack.append(s.body)
@@ -1905,6 +2046,7 @@ class FnTranslator:
         if has_brk:
             body = "if %s st then st else\n%s" % (loop.proj("brk"), body)
         self.loop_targets, self.safe_index = saved_targets, saved_safe
+        self.loop_idx_names = saved_idx
         toks = tokens(body)
         params = [v for v in env if env[v] not in ("obj", "fixed") and v not in body_assigned and mangle(v) in toks]
         unpack = "".join("let %s := %s st in\n" % (mangle(v), loop.proj(f))
@@ -2008,6 +2150,7 @@ class FnTranslator:
 
     def _translate(self):
         self.loop_targets, self.safe_index, self.shadowed_attrs = set(), [], set()
+        self.loop_idx_names = set()
         plist = self.param_list()
         env = {}
         if self.self_name:
@@ -2016,6 +2159,12 @@ class FnTranslator:
             if nme in env:
                 raise self.err("parameter / attribute name clash on %r" % nme, self.node)
             env[nme] = t
+        self.has_while = has_node(self.node.body, (ast.While,))
+        if self.has_while:
+            if "fuel" in env:
+                raise self.err("a function with a while loop has a parameter / attribute named fuel", self.node)
+            env["fuel"] = "nat"
+            plist = plist + [("fuel", "nat", "fuel")]
         if has_node(self.node.body, (ast.FunctionDef, ast.AsyncFunctionDef, ast.ClassDef, ast.Global,
                                      ast.Nonlocal, ast.Yield, ast.YieldFrom, ast.Await)):
             raise self.err("nested function / global / yield", self.node)
@@ -2261,7 +2410,7 @@ def find_function(tree, cls, name, path):
     return fns[0]
 
 
-INTERPRETED_BUILTINS = ("len", "abs", "min", "max", "float", "tuple", "zip", "enumerate", "range", "list", "map", "sorted")
+INTERPRETED_BUILTINS = ("len", "abs", "min", "max", "float", "tuple", "zip", "enumerate", "range", "list", "map", "sorted", "divmod")
 SAFE_STAR_IMPORTS = ("abc",)          # modules known not to export a name of INTERPRETED_BUILTINS
 
 
